@@ -209,6 +209,39 @@ Proof.
     rewrite !hword_hset_other by lia. reflexivity.
 Qed.
 
+Lemma wrap_id z : min_int <= z <= max_int -> wrap z = z.
+Proof. unfold wrap, min_int, max_int, two63, two64. intros H. rewrite Z.mod_small by lia. lia. Qed.
+
+Lemma st_eqB_refl a : st_eqB a a.
+Proof. repeat split; auto. Qed.
+Lemma st_eqB_trans a b c : st_eqB a b -> st_eqB b c -> st_eqB a c.
+Proof. intros (A1 & A2 & A3 & A4) (B1 & B2 & B3 & B4). repeat split; try congruence. intros x Hx. rewrite A4, B4; auto. Qed.
+Lemma st_eqB_sym a b : st_eqB a b -> st_eqB b a.
+Proof. intros (A1 & A2 & A3 & A4). repeat split; auto. intros x Hx. symmetry; auto. Qed.
+(* erase respects the block-wise equality *)
+Lemma erase_st_eqB a b p : st_eqB a b -> (p = 0 \/ is_blk p) -> st_eqB (Heap.erase p a) (Heap.erase p b).
+Proof.
+  intros (A1 & A2 & A3 & A4) Hp. unfold Heap.erase. destruct (Z.eqb_spec p 0); [repeat split; auto|].
+  destruct Hp as [|Hb]; [contradiction|]. rewrite (A4 p Hb).
+  destruct (Heap.hdr (Heap.m b p) =? 0); (split; [|split; [|split]]); cbn; auto;
+    intros x Hx; unfold Heap.set_hdr, Heap.upd; destruct (x =? p); rewrite ?A2, ?(A4 p Hb), ?(A4 x Hx); auto.
+Qed.
+(* sub-lists by position *)
+Lemma nth_error_skipn_add {A} k : forall (l : list A) n, nth_error (skipn k l) n = nth_error l (k + n).
+Proof. induction k as [|k IH]; intros l n; cbn; auto. destruct l; cbn; auto. now destruct n. Qed.
+Lemma nth_error_firstn_some {A} m : forall (l : list A) n c, nth_error (firstn m l) n = Some c -> nth_error l n = Some c.
+Proof. induction m as [|m IH]; intros l n c H; [destruct n; discriminate|]. destruct l; [destruct n; discriminate|]. destruct n; cbn in *; auto. Qed.
+Lemma code_at_slice im pos cs off E : code_at im pos cs -> firstn (List.length E) (skipn off cs) = E -> code_at im (pnth pos off) E.
+Proof.
+  intros HC HE n c Hn. rewrite pnth_add. apply HC. rewrite <- HE in Hn. apply nth_error_firstn_some in Hn.
+  now rewrite nth_error_skipn_add in Hn.
+Qed.
+Lemma labels_at_slice im pos cs off E : labels_at im pos cs -> firstn (List.length E) (skipn off cs) = E -> labels_at im (pnth pos off) E.
+Proof.
+  intros HC HE n c Hn. rewrite pnth_add. apply HC. rewrite <- HE in Hn. apply nth_error_firstn_some in Hn.
+  now rewrite nth_error_skipn_add in Hn.
+Qed.
+
 Definition same_but_temp (s s' : xstate) : Prop :=
   (forall r, r <> TEMP -> rget s' r = rget s r) /\ stack s' = stack s /\ out s' = out s.
 
@@ -307,12 +340,19 @@ Theorem x86_erase_block_ok pos t lc s sp p f F :
   (p <> 0 -> hword s p <> 0 -> wrap (hword s p + -1) = hword s p - 1) ->
   exists s', steps im pos s (pnth pos (List.length cs)) s' /\
      st_eqB (abs_heap F s') (Heap.erase p (abs_heap F s)) /\
-     same_but_temp_free s s' /\ frame_ok s' sp.
+     same_but_temp_free s s' /\ (frame_ok s' sp /\ rget s' FREE = Some (Heap.free (Heap.erase p (abs_heap F s)))).
 Proof.
   intros cs HC HL FR T P Hf Hp Hw. unfold cs in *. clear cs.
   assert (HeapReg : forall s', same_but_temp_free s s' -> reg_or0 s' HEAP = reg_or0 s HEAP).
   { intros s' (H & _). unfold reg_or0. now rewrite H by discriminate. }
   assert (Ff : reg_or0 s FREE = f) by (unfold reg_or0; now rewrite Hf).
+  assert (EF0 : Heap.free (Heap.erase 0 (abs_heap F s)) = f) by exact Ff.
+  assert (EFL : p <> 0 -> hword s p = 0 -> Heap.free (Heap.erase p (abs_heap F s)) = p).
+  { intros A B. unfold Heap.erase. destruct (Z.eqb_spec p 0); [contradiction|].
+    change (Heap.hdr (Heap.m (abs_heap F s) p)) with (hword s p). rewrite B. reflexivity. }
+  assert (EFD : p <> 0 -> hword s p <> 0 -> Heap.free (Heap.erase p (abs_heap F s)) = f).
+  { intros A B. unfold Heap.erase. destruct (Z.eqb_spec p 0); [contradiction|].
+    change (Heap.hdr (Heap.m (abs_heap F s) p)) with (hword s p). destruct (Z.eqb_spec (hword s p) 0); [contradiction|exact Ff]. }
   destruct t as [r|q];
     cbn [x_erase_block erase_valid_object if_zero_then_else skip_if_zero compare_immediate fst snd app List.length] in *; cbn [lget loc_ok] in *.
   - (* register *)
@@ -324,7 +364,7 @@ Proof.
         apply steps_refl.
       * unfold Heap.erase. cbn [Z.eqb]. repeat split; reflexivity.
       * repeat split; reflexivity.
-      * now apply frame_ok_set_flags.
+      * split; [now apply frame_ok_set_flags|]. rewrite EF0. exact Hf.
     + destruct Hp as [|Hb]; [contradiction|]. pose proof (blk_heap_addr p Hb) as Ha.
       set (s1 := set_flags s (Some (p, 0))).
       set (s2 := set_flags s1 (Some (hword s p, 0))).
@@ -352,7 +392,7 @@ Proof.
            ++ intros x Hx. cbn [abs_heap Heap.m Heap.free]. rewrite Ff.
               change (abs_mem (rset s3 FREE (Some p)) x) with (abs_mem (hset s p f) x). now apply abs_mem_hset.
         -- exact SB.
-        -- apply frame_ok_rset; [discriminate|]. apply frame_ok_hset, frame_ok_set_flags, frame_ok_set_flags, FR.
+        -- split; [apply frame_ok_rset; [discriminate|]; apply frame_ok_hset, frame_ok_set_flags, frame_ok_set_flags, FR|]. rewrite EFL by auto. apply rget_rset_same.
       * (* other references remain: decrement *)
         exists (set_flags (hset s2 p (wrap (hword s p + -1))) None).
         assert (SB : same_but_temp_free s (set_flags (hset s2 p (wrap (hword s p + -1))) None)).
@@ -375,7 +415,7 @@ Proof.
            change (abs_mem (set_flags (hset s2 p (hword s p - 1)) None) x) with (abs_mem (hset s p (hword s p - 1)) x).
            now apply abs_mem_hset.
         -- exact SB.
-        -- apply frame_ok_set_flags, frame_ok_hset, frame_ok_set_flags, frame_ok_set_flags, FR.
+        -- split; [apply frame_ok_set_flags, frame_ok_hset, frame_ok_set_flags, frame_ok_set_flags, FR|]. rewrite EFD by auto. exact Hf.
   - (* spill slot: the pointer is first loaded into the scratch register *)
     set (s0 := rset s TEMP (Some p)).
     assert (F0 : frame_ok s0 sp) by (apply frame_ok_rset; [discriminate|exact FR]).
@@ -392,7 +432,7 @@ Proof.
         split; [|split; [|split; [reflexivity|intros; reflexivity]]]; cbn [abs_heap Heap.heap Heap.free]; unfold reg_or0;
           rewrite rget_set_flags; unfold s0; now rewrite rget_rset_other by discriminate.
       * split; [|split; reflexivity]. intros r' Hr _. rewrite rget_set_flags. unfold s0. now rewrite rget_rset_other by congruence.
-      * now apply frame_ok_set_flags.
+      * split; [now apply frame_ok_set_flags|]. rewrite EF0. exact Hf0.
     + destruct Hp as [|Hb]; [contradiction|]. pose proof (blk_heap_addr p Hb) as Ha.
       set (s1 := set_flags s0 (Some (p, 0))).
       set (s2 := set_flags s1 (Some (hword s p, 0))).
@@ -421,7 +461,7 @@ Proof.
            ++ intros x Hx. cbn [abs_heap Heap.m Heap.free]. rewrite Ff.
               change (abs_mem (rset s3 FREE (Some p)) x) with (abs_mem (hset s p f) x). now apply abs_mem_hset.
         -- exact SB.
-        -- apply frame_ok_rset; [discriminate|]. apply frame_ok_hset, frame_ok_set_flags, frame_ok_set_flags, F0.
+        -- split; [apply frame_ok_rset; [discriminate|]; apply frame_ok_hset, frame_ok_set_flags, frame_ok_set_flags, F0|]. rewrite EFL by auto. apply rget_rset_same.
       * exists (set_flags (hset s2 p (wrap (hword s p + -1))) None).
         assert (SB : same_but_temp_free s (set_flags (hset s2 p (wrap (hword s p + -1))) None)).
         { split; [|split; reflexivity]. intros r' Hr1 Hr. rewrite rget_set_flags, rget_hset. unfold s2, s1. rewrite !rget_set_flags.
@@ -447,8 +487,22 @@ Proof.
               change (abs_mem (set_flags (hset s2 p (hword s p - 1)) None) x) with (abs_mem (hset s p (hword s p - 1)) x).
               now apply abs_mem_hset.
         -- exact SB.
-        -- apply frame_ok_set_flags, frame_ok_hset, frame_ok_set_flags, frame_ok_set_flags, F0.
+        -- split; [apply frame_ok_set_flags, frame_ok_hset, frame_ok_set_flags, frame_ok_set_flags, F0|]. rewrite EFD by auto. exact Hf0.
 Qed.
+
+(* ---------- more single instructions ---------- *)
+Lemma step_MOVL_heap s a b i p :
+  rget s b = Some p -> heap_addr (p + i) -> step im (MOVL a b i) s = Next (rset s a (Some (hword s (p + i)))).
+Proof. intros R H. cbn [step]. rewrite (ea_heap s b i p) by auto. unfold withm. now rewrite mload_heap. Qed.
+Lemma step_MOVIM_heap s a p j :
+  rget s a = Some p -> heap_addr p -> fits32 j = true -> step im (MOVIM a 0 j) s = Next (hset s p j).
+Proof.
+  intros R H J. cbn [step]. rewrite J, (ea_heap s a 0 p) by (auto; now rewrite Z.add_0_r).
+  rewrite Z.add_0_r. unfold withm. now rewrite mstore_heap.
+Qed.
+Lemma step_ADDI s a x i :
+  rget s a = Some x -> fits32 i = true -> step im (ADDI a i) s = Next (set_flags (rset s a (Some (wrap (x + i)))) None).
+Proof. intros R J. cbn [step]. rewrite J. unfold need. now rewrite R. Qed.
 
 (* ---------- release_block (straight-line) ---------- *)
 Theorem x86_release_block_ok pos r s p h F :
@@ -469,5 +523,281 @@ Proof.
     + intros x Hx. cbn [abs_heap Heap.m Heap.heap]. unfold reg_or0 at 1. rewrite Hh.
       change (abs_mem (rset (hset s p h) HEAP (Some p)) x) with (abs_mem (hset s p h) x). now apply abs_mem_hset.
   - intros r' Hr. rewrite rget_rset_other by congruence. reflexivity.
+Qed.
+
+(* ---------- one iteration of erase_fields in acquire_block: load a child, erase it ---------- *)
+Lemma abs_heap_rset_temp F s v : st_eqB (abs_heap F (rset s TEMP v)) (abs_heap F s).
+Proof.
+  unfold abs_heap, reg_or0. split; [|split; [|split; [reflexivity|intros; reflexivity]]]; cbn [Heap.heap Heap.free];
+    now rewrite rget_rset_other by discriminate.
+Qed.
+
+Lemma x86_erase_field_ok pos off lc s sp h2 f F :
+  let cs := MOVL TEMP HEAP off :: fst (x_erase_block (XR TEMP) lc) in
+  code_at im pos cs -> labels_at im pos cs ->
+  (off = 16 \/ off = 32 \/ off = 48) ->
+  frame_ok s sp -> rget s HEAP = Some h2 -> is_blk h2 -> rget s FREE = Some f ->
+  let c := hword s (h2 + off) in
+  (c = 0 \/ is_blk c) ->
+  (c <> 0 -> hword s c <> 0 -> wrap (hword s c + -1) = hword s c - 1) ->
+  exists s', steps im pos s (pnth pos 12) s' /\
+    st_eqB (abs_heap F s') (Heap.erase c (abs_heap F s)) /\
+    same_but_temp_free s s' /\ frame_ok s' sp /\
+    rget s' FREE = Some (Heap.free (Heap.erase c (abs_heap F s))).
+Proof.
+  intros cs HC HL Hoff FR Hh Hb Hf c Hc Hw.
+  assert (Ha : heap_addr (h2 + off)) by (apply is_blk_addr; auto; tauto).
+  set (s0 := rset s TEMP (Some c)).
+  assert (F0 : frame_ok s0 sp) by (apply frame_ok_rset; [discriminate|exact FR]).
+  assert (HC1 : code_at im (pnth pos 1) (fst (x_erase_block (XR TEMP) lc))).
+  { intros n x Hn. rewrite pnth_add. apply HC. exact Hn. }
+  assert (HL1 : labels_at im (pnth pos 1) (fst (x_erase_block (XR TEMP) lc))).
+  { intros n x Hn. rewrite pnth_add. apply HL. exact Hn. }
+  destruct (x86_erase_block_ok (pnth pos 1) (XR TEMP) lc s0 sp c f F HC1 HL1 F0 ltac:(cbn; discriminate)
+              ltac:(cbn [lget]; apply rget_rset_same) ltac:(unfold s0; rewrite rget_rset_other by discriminate; exact Hf) Hc Hw)
+    as (s' & ST & EQ & (SB1 & SB2 & SB3) & FR' & FREE').
+  assert (E0 : st_eqB (Heap.erase c (abs_heap F s0)) (Heap.erase c (abs_heap F s))).
+  { apply erase_st_eqB; auto. apply abs_heap_rset_temp. }
+  exists s'. split; [|split; [|split; [|split]]].
+  - eapply steps_next; [apply (HC 0%nat); reflexivity|eapply step_MOVL_heap; [exact Hh|exact Ha]|].
+    fold c. fold s0.
+    replace (pnth pos 12) with (pnth (pnth pos 1) (List.length (fst (x_erase_block (XR TEMP) lc)))) by (rewrite pnth_add; reflexivity).
+    exact ST.
+  - eapply st_eqB_trans; [exact EQ|exact E0].
+  - split; [|split; [exact SB2|exact SB3]]. intros r' H1 H2. rewrite SB1 by auto. unfold s0. now rewrite rget_rset_other by congruence.
+  - exact FR'.
+  - rewrite FREE'. f_equal. destruct E0 as (_ & E & _). exact E.
+Qed.
+
+(* ---------- acquire_block, the new block in a register ---------- *)
+Lemma erase_hdr_cases a p x :
+  Heap.hdr (Heap.m (Heap.erase p a) x) = Heap.hdr (Heap.m a x) \/
+  Heap.hdr (Heap.m (Heap.erase p a) x) = Heap.hdr (Heap.m a x) - 1 \/
+  Heap.hdr (Heap.m (Heap.erase p a) x) = Heap.free a.
+Proof.
+  unfold Heap.erase. destruct (p =? 0); auto. destruct (Heap.hdr (Heap.m a p) =? 0); cbn; unfold Heap.set_hdr, Heap.upd;
+    destruct (Z.eqb_spec x p); subst; cbn; auto.
+Qed.
+Lemma erase_free_cases a p : Heap.free (Heap.erase p a) = Heap.free a \/ Heap.free (Heap.erase p a) = p.
+Proof. unfold Heap.erase. destruct (p =? 0); auto. destruct (Heap.hdr (Heap.m a p) =? 0); cbn; auto. Qed.
+Lemma erase_ps_abs a p x : Heap.ps (Heap.m (Heap.erase p a) x) = Heap.ps (Heap.m a x).
+Proof.
+  unfold Heap.erase. destruct (p =? 0); auto. destruct (Heap.hdr (Heap.m a p) =? 0); cbn; unfold Heap.set_hdr, Heap.upd;
+    destruct (Z.eqb_spec x p); subst; auto.
+Qed.
+
+(* all headers and the free pointer at least k above the smallest 64-bit integer *)
+Definition bounded (k : Z) (s : xstate) (f : Z) : Prop :=
+  (forall x, is_blk x -> min_int + k <= hword s x <= max_int) /\ min_int + k <= f <= max_int.
+Lemma is_blk_range x : is_blk x -> min_int + 3 <= x <= max_int.
+Proof. intros (k & Hk & -> & H). unfold min_int, max_int, two63, HEAP_BASE, HEAP_SIZE in *. lia. Qed.
+
+Lemma bounded_after_erase F k s f s' c :
+  bounded (k + 1) s f -> 0 <= k <= 2 -> Heap.free (abs_heap F s) = f -> (c = 0 \/ is_blk c) ->
+  st_eqB (abs_heap F s') (Heap.erase c (abs_heap F s)) ->
+  bounded k s' (Heap.free (Heap.erase c (abs_heap F s))).
+Proof.
+  intros [B1 B2] Hk Hf Hc (_ & _ & _ & E). split.
+  - intros x Hx. change (hword s' x) with (Heap.hdr (Heap.m (abs_heap F s') x)). rewrite (E x Hx).
+    specialize (B1 x Hx). change (hword s x) with (Heap.hdr (Heap.m (abs_heap F s) x)) in B1.
+    destruct (erase_hdr_cases (abs_heap F s) c x) as [->|[->| ->]]; rewrite ?Hf; lia.
+  - destruct (erase_free_cases (abs_heap F s) c) as [->| ->]; [rewrite Hf; lia|].
+    destruct Hc as [->|Hb]; [unfold min_int, max_int, two63; lia|]. pose proof (is_blk_range c Hb). lia.
+Qed.
+
+(* ---------- acquire_block, the new block in a register: all three cases ---------- *)
+Ltac rg := repeat first [rewrite rget_set_flags | rewrite rget_hset | rewrite rget_rset_other by (first [congruence|discriminate])].
+
+Theorem x86_acquire_block_reg_ok pos r lc s sp rv h2 F :
+  let cs := fst (acquire_block (XR r) lc) in
+  code_at im pos cs -> labels_at im pos cs ->
+  frame_ok s sp -> r <> 0%N -> r <> HEAP -> r <> FREE -> r <> TEMP ->
+  rget s HEAP = Some rv -> is_blk rv -> rget s FREE = Some h2 ->
+  (hword s rv = 0 -> is_blk h2) ->
+  (hword s rv = 0 -> hword s h2 <> 0 ->
+     (forall off, off = 16 \/ off = 32 \/ off = 48 -> hword s (h2 + off) = 0 \/ is_blk (hword s (h2 + off))) /\
+     bounded 3 s (hword s h2)) ->
+  exists s', steps im pos s (pnth pos (List.length cs)) s' /\
+    st_eqB (abs_heap (Heap.frontier (snd (Heap.acquire (abs_heap F s)))) s') (snd (Heap.acquire (abs_heap F s))) /\
+    rget s' r = Some rv /\ fst (Heap.acquire (abs_heap F s)) = rv /\
+    (forall r', r' <> r -> r' <> TEMP -> r' <> HEAP -> r' <> FREE -> rget s' r' = rget s r') /\
+    stack s' = stack s /\ out s' = out s /\ frame_ok s' sp.
+Proof.
+  intros cs HC HL FR R0 RH RF RT Hh Hb Hf Hb2 Hch. unfold cs in *. clear cs.
+  unfold acquire_block, erase_fields in *. change (nseq 0 FIELDS_PER_BLOCK) with [0;1;2]%N in *.
+  cbn [fold_left x_erase_block erase_valid_object if_zero_then_else skip_if_zero compare_immediate fst snd app List.length] in *.
+  assert (HA : Heap.heap (abs_heap F s) = rv) by (unfold abs_heap, reg_or0; cbn [Heap.heap]; now rewrite Hh).
+  assert (FA : Heap.free (abs_heap F s) = h2) by (unfold abs_heap, reg_or0; cbn [Heap.free]; now rewrite Hf).
+  pose proof (blk_heap_addr rv Hb) as Ha.
+  set (s1 := rset s r (Some rv)).
+  set (s2 := rset s1 HEAP (Some (hword s rv))).
+  set (s3 := set_flags s2 (Some (hword s rv, 0))).
+  assert (P1 : rget s1 HEAP = Some rv) by (unfold s1; rewrite rget_rset_other by (first [congruence|discriminate]); exact Hh).
+  assert (ST3 : forall pc' s', steps im (pnth pos 3) s3 pc' s' -> steps im pos s pc' s').
+  { intros pc' s' H.
+    nxt HC 0%nat. { cbn [step]. rewrite Hh. reflexivity. }
+    nxt HC 1%nat. { change NEXT_ELEMENT_OFFSET with 0. eapply step_MOVL_heap; [exact P1|rewrite Z.add_0_r; exact Ha]. }
+    nxt HC 2%nat. { apply step_CMPI0. rewrite Z.add_0_r. apply rget_rset_same. }
+    rewrite Z.add_0_r. exact H. }
+  unfold Heap.acquire. rewrite HA, FA.
+  change (Heap.hdr (Heap.m (abs_heap F s) rv)) with (hword s rv).
+  change (Heap.hdr (Heap.m (abs_heap F s) h2)) with (hword s h2).
+  destruct (Z.eqb_spec (hword s rv) 0) as [H0|Hn0]; cbn [negb].
+  2:{ (* case 1 *)
+    exists (hset s3 rv 0). split; [|split; [|split; [|split; [|split; [|split; [|split]]]]]].
+    - apply ST3.
+      nxt HC 3%nat. { rewrite (step_JEL im _ _ (hword s rv) 0) by reflexivity. destruct (Z.eqb_spec (hword s rv) 0); [contradiction|reflexivity]. }
+      nxt HC 4%nat. { change REFERENCE_COUNT_OFFSET with 0. eapply step_MOVIM_heap; [|exact Ha|reflexivity].
+        unfold s3, s2. rewrite rget_set_flags, rget_rset_other by (first [congruence|discriminate]). apply rget_rset_same. }
+      jmp HC 5%nat. { cbn [step]. unfold goto_label. rewrite (HL 53%nat _ eq_refl). reflexivity. }
+      nxt HC 53%nat. { reflexivity. }
+      apply steps_refl.
+    - cbn [snd Heap.frontier]. split; [|split; [|split; [reflexivity|]]].
+      + cbn [abs_heap Heap.heap]. unfold reg_or0. rewrite rget_hset. unfold s3, s2. rewrite rget_set_flags, rget_rset_same. reflexivity.
+      + cbn [abs_heap Heap.free]. unfold reg_or0. rewrite rget_hset. unfold s3, s2, s1. rewrite rget_set_flags, !rget_rset_other by (first [congruence|discriminate]). now rewrite Hf.
+      + intros x Hx. cbn [abs_heap Heap.m]. change (abs_mem (hset s3 rv 0) x) with (abs_mem (hset s rv 0) x). now apply abs_mem_hset.
+    - rewrite rget_hset. unfold s3, s2. rewrite rget_set_flags, rget_rset_other by (first [congruence|discriminate]). apply rget_rset_same.
+    - reflexivity.
+    - intros r' A B C D. rewrite rget_hset. unfold s3, s2, s1. rewrite rget_set_flags, !rget_rset_other by (first [congruence|discriminate]). reflexivity.
+    - reflexivity.
+    - reflexivity.
+    - apply frame_ok_hset, frame_ok_set_flags. unfold s2, s1. apply frame_ok_rset; [discriminate|]. apply frame_ok_rset; auto. }
+  pose proof (Hb2 H0) as Hbh2. pose proof (blk_heap_addr h2 Hbh2) as Ha2.
+  set (s4 := rset s3 HEAP (Some h2)).
+  set (s5 := rset s4 FREE (Some (hword s h2))).
+  set (s6 := set_flags s5 (Some (hword s h2, 0))).
+  assert (P3F : rget s3 FREE = Some h2).
+  { unfold s3, s2, s1. rewrite rget_set_flags, !rget_rset_other by (first [congruence|discriminate]). exact Hf. }
+  assert (P4F : rget s4 FREE = Some h2) by (unfold s4; rewrite rget_rset_other by discriminate; exact P3F).
+  assert (ST6 : forall pc' s', steps im (pnth pos 10) s6 pc' s' -> steps im pos s pc' s').
+  { intros pc' s' H. apply ST3.
+    jmp HC 3%nat. { rewrite (step_JEL im _ _ (hword s rv) 0) by reflexivity. rewrite H0. cbn [Z.eqb]. unfold goto_label. rewrite (HL 6%nat _ eq_refl). reflexivity. }
+    nxt HC 6%nat. { reflexivity. }
+    nxt HC 7%nat. { cbn [step]. rewrite P3F. reflexivity. }
+    nxt HC 8%nat. { change NEXT_ELEMENT_OFFSET with 0. eapply step_MOVL_heap; [exact P4F|rewrite Z.add_0_r; exact Ha2]. }
+    nxt HC 9%nat. { apply step_CMPI0. rewrite Z.add_0_r. apply rget_rset_same. }
+    rewrite Z.add_0_r. exact H. }
+  assert (P6r : rget s6 r = Some rv).
+  { unfold s6, s5, s4, s3, s2. rg. apply rget_rset_same. }
+  assert (P6H : rget s6 HEAP = Some h2).
+  { unfold s6, s5. rg. apply rget_rset_same. }
+  assert (P6o : forall r', r' <> r -> r' <> TEMP -> r' <> HEAP -> r' <> FREE -> rget s6 r' = rget s r').
+  { intros r' A B C D. unfold s6, s5, s4, s3, s2, s1. rg. reflexivity. }
+  assert (F6 : frame_ok s6 sp).
+  { unfold s6, s5, s4, s3, s2, s1. repeat first [apply frame_ok_set_flags | apply frame_ok_rset; [first [assumption|discriminate]|]]. exact FR. }
+  destruct (Z.eqb_spec (hword s h2) 0) as [Hf0|Hfn].
+  - (* case 3: bump *)
+    set (s7 := rset s6 FREE (Some h2)).
+    exists (set_flags (rset s7 FREE (Some (wrap (h2 + 64)))) None).
+    assert (W : wrap (h2 + 64) = h2 + 64).
+    { apply wrap_id. destruct Hbh2 as (k & Hk & -> & Hhi). unfold min_int, max_int, two63, HEAP_BASE, HEAP_SIZE in *. lia. }
+    split; [|split; [|split; [|split; [|split; [|split; [|split]]]]]].
+    + apply ST6.
+      jmp HC 10%nat. { rewrite (step_JEL im _ _ (hword s h2) 0) by reflexivity. rewrite Hf0. cbn [Z.eqb]. unfold goto_label. rewrite (HL 49%nat _ eq_refl). reflexivity. }
+      nxt HC 49%nat. { reflexivity. }
+      nxt HC 50%nat. { cbn [step]. rewrite P6H. reflexivity. }
+      nxt HC 51%nat. { eapply step_ADDI; [apply rget_rset_same|reflexivity]. }
+      nxt HC 52%nat. { reflexivity. }
+      nxt HC 53%nat. { reflexivity. }
+      apply steps_refl.
+    + cbn [snd Heap.frontier]. split; [|split; [|split; [reflexivity|intros; reflexivity]]].
+      * cbn [abs_heap Heap.heap]. unfold reg_or0. rewrite rget_set_flags, rget_rset_other by discriminate. unfold s7. rewrite rget_rset_other by discriminate. now rewrite P6H.
+      * cbn [abs_heap Heap.free]. unfold reg_or0. rewrite rget_set_flags, rget_rset_same. exact W.
+    + rewrite rget_set_flags. unfold s7. rewrite !rget_rset_other by (first [congruence|discriminate]). exact P6r.
+    + reflexivity.
+    + intros r' A B C D. rewrite rget_set_flags. unfold s7. rewrite !rget_rset_other by (first [congruence|discriminate]). now apply P6o.
+    + reflexivity.
+    + reflexivity.
+    + apply frame_ok_set_flags. unfold s7. do 2 (apply frame_ok_rset; [discriminate|]). exact F6.
+  - (* case 2: recycle the first deferred block, erase its children *)
+    destruct (Hch H0 Hfn) as [Hkids [B1 B2]].
+    set (f' := hword s h2) in *.
+    set (sm := hset s6 h2 0).
+    pose proof (is_blk_nonneg h2 Hbh2) as Hh2nn.
+    assert (Wm : forall x, 0 <= x -> x <> h2 -> hword sm x = hword s x).
+    { intros x A B. unfold sm. rewrite hword_hset_other by auto. reflexivity. }
+    assert (PmH : rget sm HEAP = Some h2) by exact P6H.
+    assert (PmF : rget sm FREE = Some f') by (unfold sm, s6, s5; rg; apply rget_rset_same).
+    assert (Fm : frame_ok sm sp) by (apply frame_ok_hset; exact F6).
+    assert (Bm : bounded 3 sm f').
+    { split; [|exact B2]. intros x Hx. destruct (Z.eq_dec x h2) as [->|Hne].
+      - unfold sm. rewrite hword_hset_same. unfold min_int, max_int, two63. lia.
+      - rewrite Wm by (auto using is_blk_nonneg). now apply B1. }
+    set (a1 := {| Heap.m := Heap.set_hdr (Heap.m (abs_heap F s)) h2 0; Heap.heap := h2; Heap.free := f'; Heap.frontier := Heap.frontier (abs_heap F s) |}).
+    assert (Em : st_eqB (abs_heap F sm) a1).
+    { unfold a1. split; [|split; [|split; [reflexivity|]]].
+      - cbn [abs_heap Heap.heap]. unfold reg_or0. now rewrite PmH.
+      - cbn [abs_heap Heap.free]. unfold reg_or0. now rewrite PmF.
+      - intros x Hx. cbn [abs_heap Heap.m]. change (abs_mem sm x) with (abs_mem (hset s h2 0) x). now apply abs_mem_hset. }
+    set (c1 := hword s (h2 + 16)). set (c2 := hword s (h2 + 32)). set (c3 := hword s (h2 + 48)).
+    assert (K1 : c1 = 0 \/ is_blk c1) by (apply Hkids; auto).
+    assert (K2 : c2 = 0 \/ is_blk c2) by (apply Hkids; auto).
+    assert (K3 : c3 = 0 \/ is_blk c3) by (apply Hkids; auto).
+    assert (Cm : hword sm (h2 + 16) = c1 /\ hword sm (h2 + 32) = c2 /\ hword sm (h2 + 48) = c3).
+    { repeat split; apply Wm; lia. }
+    destruct Cm as (Cm1 & Cm2 & Cm3).
+    (* the slots of the recycled block are not changed by the erasures *)
+    assert (Slots : forall s' a, st_eqB (abs_heap F s') (Heap.erase a (abs_heap F sm)) ->
+              hword s' (h2 + 16) = c1 /\ hword s' (h2 + 32) = c2 /\ hword s' (h2 + 48) = c3).
+    { intros s' a (_ & _ & _ & E). specialize (E h2 Hbh2). apply (f_equal Heap.ps) in E. rewrite erase_ps_abs in E.
+      cbn [abs_heap Heap.m abs_mem Heap.ps] in E. inversion E. rewrite Cm1, Cm2, Cm3 in *. auto. }
+    (* first child *)
+    assert (HC1 : code_at im (pnth pos 12) (MOVL TEMP HEAP 16 :: fst (x_erase_block (XR TEMP) lc))) by (apply (code_at_slice _ _ _ 12 _ HC); reflexivity).
+    assert (HL1 : labels_at im (pnth pos 12) (MOVL TEMP HEAP 16 :: fst (x_erase_block (XR TEMP) lc))) by (apply (labels_at_slice _ _ _ 12 _ HL); reflexivity).
+    destruct (x86_erase_field_ok (pnth pos 12) 16 lc sm sp h2 f' F HC1 HL1 ltac:(auto) Fm PmH Hbh2 PmF) as (se1 & ST1 & EQ1 & SB1 & FR1 & FREE1).
+    { rewrite Cm1. exact K1. }
+    { rewrite Cm1. intros A B. apply wrap_id. destruct K1 as [|Kb]; [contradiction|]. pose proof (proj1 Bm c1 Kb). lia. }
+    rewrite Cm1 in *.
+    assert (Efm : Heap.free (abs_heap F sm) = f') by (destruct Em as (_ & E & _); exact E).
+    set (am := abs_heap F sm) in *.
+    pose proof (bounded_after_erase F 2 sm f' se1 c1 Bm ltac:(lia) Efm K1 EQ1) as Bd1. fold am in Bd1.
+    destruct (Slots se1 c1 EQ1) as (_ & S12 & S13).
+    assert (P1H : rget se1 HEAP = Some h2) by (destruct SB1 as (A & _); rewrite A by discriminate; exact PmH).
+    (* second child *)
+    assert (HC2 : code_at im (pnth pos 24) (MOVL TEMP HEAP 32 :: fst (x_erase_block (XR TEMP) (lc + 2 + 1)))) by (apply (code_at_slice _ _ _ 24 _ HC); reflexivity).
+    assert (HL2 : labels_at im (pnth pos 24) (MOVL TEMP HEAP 32 :: fst (x_erase_block (XR TEMP) (lc + 2 + 1)))) by (apply (labels_at_slice _ _ _ 24 _ HL); reflexivity).
+    destruct (x86_erase_field_ok (pnth pos 24) 32 (lc + 2 + 1) se1 sp h2 _ F HC2 HL2 ltac:(auto) FR1 P1H Hbh2 FREE1) as (se2 & ST2 & EQ2 & SB2 & FR2 & FREE2).
+    { rewrite S12. exact K2. }
+    { rewrite S12. intros A B. apply wrap_id. destruct K2 as [|Kb]; [contradiction|]. pose proof (proj1 Bd1 c2 Kb). lia. }
+    rewrite S12 in *.
+    assert (EQ2' : st_eqB (abs_heap F se2) (Heap.erase c2 (Heap.erase c1 am))).
+    { eapply st_eqB_trans; [exact EQ2|]. apply erase_st_eqB; auto. }
+    assert (Ef1 : Heap.free (abs_heap F se1) = Heap.free (Heap.erase c1 am)) by (destruct EQ1 as (_ & E & _); exact E).
+    pose proof (bounded_after_erase F 1 se1 _ se2 c2 Bd1 ltac:(lia) Ef1 K2 EQ2) as Bd2.
+    assert (S23 : hword se2 (h2 + 48) = c3).
+    { destruct EQ2' as (_ & _ & _ & E). specialize (E h2 Hbh2). apply (f_equal Heap.ps) in E. rewrite !erase_ps_abs in E.
+      unfold am in E. cbn [abs_heap Heap.m abs_mem Heap.ps] in E. inversion E. rewrite Cm3 in *. auto. }
+    assert (P2H : rget se2 HEAP = Some h2) by (destruct SB2 as (A & _); rewrite A by discriminate; exact P1H).
+    (* third child *)
+    assert (HC3 : code_at im (pnth pos 36) (MOVL TEMP HEAP 48 :: fst (x_erase_block (XR TEMP) (lc + 2 + 1 + 2 + 1)))) by (apply (code_at_slice _ _ _ 36 _ HC); reflexivity).
+    assert (HL3 : labels_at im (pnth pos 36) (MOVL TEMP HEAP 48 :: fst (x_erase_block (XR TEMP) (lc + 2 + 1 + 2 + 1)))) by (apply (labels_at_slice _ _ _ 36 _ HL); reflexivity).
+    destruct (x86_erase_field_ok (pnth pos 36) 48 (lc + 2 + 1 + 2 + 1) se2 sp h2 _ F HC3 HL3 ltac:(auto) FR2 P2H Hbh2 FREE2) as (se3 & ST3' & EQ3 & SB3 & FR3 & FREE3).
+    { rewrite S23. exact K3. }
+    { rewrite S23. intros A B. apply wrap_id. destruct K3 as [|Kb]; [contradiction|]. pose proof (proj1 Bd2 c3 Kb). lia. }
+    rewrite S23 in *.
+    assert (EQ3' : st_eqB (abs_heap F se3) (Heap.erase c3 (Heap.erase c2 (Heap.erase c1 a1)))).
+    { eapply st_eqB_trans; [exact EQ3|]. apply erase_st_eqB; auto.
+      eapply st_eqB_trans; [exact EQ2'|]. apply erase_st_eqB; auto. apply erase_st_eqB; auto. }
+    exists se3. split; [|split; [|split; [|split; [|split; [|split; [|split]]]]]].
+    + apply ST6.
+      nxt HC 10%nat. { rewrite (step_JEL im _ _ (hword s h2) 0) by reflexivity. fold f'. destruct (Z.eqb_spec f' 0); [contradiction|reflexivity]. }
+      nxt HC 11%nat. { change NEXT_ELEMENT_OFFSET with 0. eapply step_MOVIM_heap; [exact P6H|exact Ha2|reflexivity]. }
+      fold sm.
+      eapply steps_trans; [exact ST1|]. eapply steps_trans; [exact ST2|]. eapply steps_trans; [exact ST3'|].
+      jmp HC 48%nat. { cbn [step]. unfold goto_label. rewrite (HL 52%nat _ eq_refl). reflexivity. }
+      nxt HC 52%nat. { reflexivity. }
+      nxt HC 53%nat. { reflexivity. }
+      apply steps_refl.
+    + cbn [snd]. cbn [abs_heap Heap.m abs_mem Heap.ps fold_left]. fold c1 c2 c3. fold f'.
+      assert (FE : Heap.frontier (Heap.erase c3 (Heap.erase c2 (Heap.erase c1 a1))) = F).
+      { destruct EQ3' as (_ & _ & E & _). rewrite <- E. reflexivity. }
+      change {| Heap.m := Heap.set_hdr (abs_mem s) h2 0; Heap.heap := h2; Heap.free := f'; Heap.frontier := F |} with a1.
+      rewrite FE. exact EQ3'.
+    + destruct SB3 as (A3 & _), SB2 as (A2 & _), SB1 as (A1 & _). rewrite A3, A2, A1 by (first [congruence|discriminate]). exact P6r.
+    + reflexivity.
+    + intros r' A B C D. destruct SB3 as (A3 & _), SB2 as (A2 & _), SB1 as (A1 & _). rewrite A3, A2, A1 by auto. unfold sm. rewrite rget_hset. now apply P6o.
+    + destruct SB3 as (_ & A3 & _), SB2 as (_ & A2 & _), SB1 as (_ & A1 & _). rewrite A3, A2, A1. reflexivity.
+    + destruct SB3 as (_ & _ & A3), SB2 as (_ & _ & A2), SB1 as (_ & _ & A1). rewrite A3, A2, A1. reflexivity.
+    + exact FR3.
 Qed.
 End Refine.
